@@ -62,4 +62,19 @@ theorem package_vars_users :
     compute with is local to the call, so concurrent comparisons / sanitisations share nothing -/
 theorem sub_packages_stateless : subPackageVars = [] := by decide
 
+/-- the functions that evaluate a parsed selector (everything in `selector.go` below the parser) -/
+def selectorEvaluators : List String :=
+  ["SelectDimension", "SelectMany", "Unwind", "SelectObject", "ExecReader", "ReaderExecutor", "Reader", "Mix", "MixArray",
+   "MixObject", "Distinct", "IndexSelector.GetIndex", "IndexSelector.GetRange", "IndexSelector.GetType",
+   "PipeSelector.GetKey", "PipeSelector.GetType"]
+
+/-- **a cached parse result is never written**: `cache_is_parse_graph` (the cache is a sub-graph of `parse`, so every
+    interleaving returns the stand-alone result) needs the cached values to be immutable.  Of all write sites into memory a
+    function did not allocate itself, the selector evaluators own exactly one — the insertion into the cache map, under the
+    mutex; none of them assigns through a parsed selector (an `IndexSelector`'s range, a key list). -/
+theorem cached_parse_results_never_written :
+    ((writeSites.zip writeSiteFuncs).filter (fun p => selectorEvaluators.contains p.2)).map (·.1) =
+      ["ExecReader:index:cache"] := by
+  decide +kernel
+
 end Genql.Obligations.C13
